@@ -128,6 +128,7 @@ class State:
         self.trace = []      # block indices
         self.ghost = {}      # named ghost scalars (e.g. call log counters)
         self.names = {}      # source identifier -> ('reg'|'addr', register)
+        self.sink = None
 
     def copy(self):
         s = State.__new__(State)
@@ -147,11 +148,23 @@ class State:
         s.trace = list(self.trace)
         s.ghost = dict(self.ghost)
         s.names = dict(self.names)
+        s.sink = None
+        return s
+
+    def with_sink(self, sink):
+        """view of this (older) state whose derived facts are recorded in the current state"""
+        s = State.__new__(State)
+        s.__dict__.update(self.__dict__)
+        s.sink = sink
         return s
 
     # ---- assumptions
     def assume(self, f):
         if z3.is_true(f):
+            return
+        sink = getattr(self, 'sink', None)
+        if sink is not None and sink is not self:
+            sink.assume(f)
             return
         self.assumptions.append(f)
         self.cx.solver_add(f)
